@@ -12,12 +12,28 @@ import (
 
 var plainKeyHeads = []string{"debug", "net_udp_port", "enabled", "tx_max_count", "mtrace_rate", "a", "b1", "k", "list", "rate", "name", "x.y", "_u", "0k", "Key", "long-name", "ids"}
 
+// the names in the environment this process was started with: the histories keep clear of them
+// (absent keys fall back to the environment) and set variables of their own, which the trace
+// records
+var inheritedEnv map[string]bool
+
+func inherited() map[string]bool {
+	if inheritedEnv == nil {
+		inheritedEnv = map[string]bool{}
+		for _, kv := range os.Environ() {
+			if i := strings.IndexByte(kv, '='); i > 0 {
+				inheritedEnv[kv[:i]] = true
+			}
+		}
+	}
+	return inheritedEnv
+}
+
 func usableKey(k string) bool {
 	if k == "" || strings.Contains(k, "${") {
 		return false
 	}
-	_, set := os.LookupEnv(k) // absent keys fall back to the environment: keep clear of it
-	return !set
+	return !inherited()[k]
 }
 
 // plainKey: starts with a word character, then word characters, '.', '-'.
